@@ -11,7 +11,8 @@ RULE = ("documents: generated Clausewitz text (nested objects/arrays, duplicate 
         "then EVERY container/header token and the top level, with both encodings: fields_len, size hints, fields, "
         "remainder, field groups, read_object/read_array/read_scalar/read_str, values, len, tokens_len. "
         "non-trivial = the node has at least one field or value")
-TRUSTED = ["HashMap<&[u8],Vec<_>> of FieldGroupsIter is modelled as an association list keyed by raw bytes (std HashMap trusted)",
+TRUSTED = [  # note: TapeWf.tape_wf of every parsed tape is now a theorem (Props/C17_parser.v)
+"HashMap<&[u8],Vec<_>> of FieldGroupsIter is modelled as an association list keyed by raw bytes (std HashMap trusted)",
            "Encoding::decode is a parameter of the model; the executable instances (Json.decode_w1252 / decode_utf8, incl. "
            "from_utf8_lossy) are stand-ins exercised by correspondence, verified by the C12 family",
            "the text parser itself: theorems assume TapeWf.tape_wf, whose boolean checker is run on every real tape (stream wf)"]
